@@ -1,7 +1,7 @@
 META = {
     "level": "model_checking",
     "technique": "symbolic TLA+ model of RFC 4253 7.2 key derivation and of the letter selection in _activate_outbound/_activate_inbound for a client and a server over two key exchanges (KeyDerivation.tla), model-checked by TLC with seeded defects; the real _compute_key run with a recording hash and its hash-call structure checked by TLC; real handshakes for every cipher x MAC pair with logging Transport/Packetizer subclasses, the requested letters, sizes, installed values and their equality across the two peers checked by TLC; values compared with an independent RFC implementation",
-    "text": "TLC checks on the model that the keys installed by both roles are exactly the RFC derivation (letters A/C/E client-to-server, B/D/F server-to-client, session id of the first exchange, extension over K1..Ki), that out(client) = in(server) and vice versa, that no key is shared between directions, purposes or exchanges, and that swapping the letters in both roles, extending with the last digest only, overwriting the session id at re-key, or keeping the first exchange's hash function for later exchanges is noticed; _compute_key is called for every letter, every kex hash (sha1/256/384/512) and lengths 1..512 with a recording hash: TLC checks each hash input is K || H || X || session_id resp. K || H || K1..Ki and the driver compares the bytes with an RFC 4253 7.2 re-implementation; real client/server sessions (every cipher x MAC, rotating kex algorithms, with re-keys to kex methods of another hash family; every installed key compared with the RFC derivation under that exchange's own hash) are logged and TLC checks letters, sizes, cross-peer equality and distinctness",
+    "text": "TLC checks on the model that the keys installed by both roles are exactly the RFC derivation (letters A/C/E client-to-server, B/D/F server-to-client, session id of the first exchange, extension over K1..Ki), that out(client) = in(server) and vice versa, that no key is shared between directions, purposes or exchanges, and that swapping the letters in both roles, extending with the last digest only, overwriting the session id at re-key, keeping the first exchange's hash function for later exchanges, or keeping the cipher engine (hence the first key) across exchanges is noticed; _compute_key is called for every letter, every kex hash (sha1/256/384/512) and lengths 1..512 with a recording hash: TLC checks each hash input is K || H || X || session_id resp. K || H || K1..Ki and the driver compares the bytes with an RFC 4253 7.2 re-implementation; real client/server sessions (every cipher x MAC, rotating kex algorithms, with re-keys to kex methods of another hash family; every installed key compared with the RFC derivation under that exchange's own hash) are logged and TLC checks letters, sizes, cross-peer equality and distinctness; the keys in use are judged on the wire: the first packet each side writes after every key switch (every cipher, two exchanges) is opened by an independent engine built from the RFC-derived key, IV and MAC key of that exchange",
     "note": "trusted: TLC, hashlib, the 20-line RFC 4253 7.2 re-implementation and RFC key-size tables in harness/drivers/packet.py; the cipher key itself is observed as the argument of _get_engine (the engine does not expose it), MAC key and GCM IV as arguments of set_*_cipher",
 }
 import collections
@@ -26,7 +26,23 @@ def rfc_letter(c2s, what):
     return {"iv": "ACE"[0], "key": "C", "mac": "E"}[what] if c2s else {"iv": "B", "key": "D", "mac": "F"}[what]
 
 
-def kex_records(log, intern):
+def first_packet_opens(a, first_sid, socks):
+    """the keys IN USE: the first packet this endpoint wrote after the outbound key switch, opened by an engine built
+    independently (harness Opener: RFC 4253 7.2 derivation from this exchange's K, H, hash and the session id,
+    `cryptography` primitives).  "ok" / "bad" / "none" (nothing was written under these keys, or not recorded)"""
+    if not socks or not a.get("wire_at") or a["wire_at"][0] is None:
+        return "none"
+    chunks = socks[a["role"]].sent_log
+    at, seqno = a["wire_at"]
+    if at >= len(chunks):
+        return "none"
+    op = P.Opener((a["cipher"], a["mac"], "none"), (a["K"], a["H"]), first_sid, a["hashf"] or hashlib.sha1, sender_server=a["role"] == "server")
+    res = op.open(chunks[at], seqno if seqno >= 0 else 0)
+    good = not res.get("error") and 4 <= res.get("padlen", 0) and res.get("message") and (res.get("mac_ok") or seqno < 0)
+    return "ok" if good else "bad"
+
+
+def kex_records(log, intern, socks=None):
     """group the log of one session into one record per key exchange"""
     cur, count, acts = {}, collections.Counter(), {}
     for e in log:
@@ -43,6 +59,7 @@ def kex_records(log, intern):
             cur[e[1]]["eng"] = (e[3], e[4], e[5])
         elif e[0] == "set" and e[1] in cur:
             cur[e[1]]["set"] = (e[3], e[4], e[5])
+            cur[e[1]]["wire_at"] = e[6:8] if len(e) > 7 else None
     out = []
     first = acts.get(("client", "out", 1))
     if first is None:
@@ -74,7 +91,8 @@ def kex_records(log, intern):
                 ids[w] = intern(v)
                 hashf = a["hashf"] or hashlib.sha1
                 ok[w] = v == P.rfc_kdf(hashf, a["K"], a["H"], first_sid, rfc_letter(c2s, w), need[w]) if need[w] else True
-            rec["acts"].append({"role": role, "dir": d, "let": let, "size": size, "id": ids, "rfc_ok": ok})
+            rec["acts"].append({"role": role, "dir": d, "let": let, "size": size, "id": ids, "rfc_ok": ok,
+                                "wire": first_packet_opens(a, first_sid, socks) if d == "out" else "none"})
             rec.setdefault("meta", {}).setdefault("algos", set()).add("%s/%s" % (a["cipher"], a["mac"]))
             rec["meta"]["hash"] = (a["hashf"] or hashlib.sha1)().name
             rec["meta"]["sid_is_H"] = a["H"] == first_sid
@@ -85,10 +103,20 @@ def kex_records(log, intern):
     return out
 
 
+def keep_bytes(tc, ts):
+    tc.sock.sent_log, ts.sock.sent_log = [], []
+
+
+def both_speak(tc, ts):
+    """one packet in each direction under the keys just installed (there may be no other traffic after a re-key)"""
+    tc.send_ignore(8)
+    ts.send_ignore(8)
+
+
 def run(c):
     rnd = random.Random(c.seed)
     # ---- M: the model with and without seeded defects, in one exploration
-    muts = {"swap", "last", "sid", "oldhash"}
+    muts = {"swap", "last", "sid", "oldhash", "engreuse"}
     n = 0
     for hl, iv, key, mac in ((20, 16, 32, 64), (32, 12, 16, 32)) if not c.quick else ((20, 16, 32, 64),):
         r = c.mc_holds("KeyDerivation", cfg_text(constants={"MaxKex": 2, "HLen": hl, "IvLen": iv, "KeyLen": key, "MacLen": mac,
@@ -130,20 +158,15 @@ def run(c):
     def intern(v):
         return interned.setdefault(v, len(interned) + 1)
     sessions = 0
-    for i, (cipher, mac) in enumerate(pairs):
-        if c.quick and i % 2 != c.seed % 2 and not cipher.startswith(("3des", "aes128-gcm")):
-            continue
-        kex = kexes[(i + c.seed) % len(kexes)]
-        if kex == "diffie-hellman-group16-sha512" and (c.quick or i % 24 != 6):     # slow: a few sessions only
-            kex = "ecdh-sha2-nistp521"
+    def session(cipher, mac, kex, rekeys):
         log = []
         KT, KP = P.kd_classes(log)
         tc, ts = P.connect_pair(client_cls=KT, server_cls=KT, client_kw={"packetizer_class": KP},
-                                server_kw={"packetizer_class": KP}, ciphers=[cipher], macs=[mac], kex=[kex])
+                                server_kw={"packetizer_class": KP}, ciphers=[cipher], macs=[mac], kex=[kex], before_start=keep_bytes)
         try:
             want = 4
-            rekeys = 0 if (c.quick and i % 3) else (1 if c.quick else 2)
             used = [kex]
+            both_speak(tc, ts)
             for _ in range(rekeys):
                 # the next exchange negotiates a kex method of ANOTHER hash family (either side may change its
                 # preferences between exchanges): its keys must be derived with ITS hash
@@ -153,6 +176,7 @@ def run(c):
                     t.get_security_options().kex = (nxt,)
                 tc.renegotiate_keys()
                 want += 4
+                both_speak(tc, ts)
             t_end = time.time() + 10          # the peer may still be switching its inbound keys
             # ("set" is the last thing an activation logs)
             while sum(1 for e in log if e[0] == "set") < want and time.time() < t_end:
@@ -160,21 +184,34 @@ def run(c):
         finally:
             tc.close()
             ts.close()
-        recs = kex_records(log, intern)
+        recs = kex_records(log, intern, {"client": tc.sock, "server": ts.sock})
         if not recs:
             raise Machinery("no key activation logged for %s/%s" % (cipher, mac))
         if len(recs) != len(used):
             raise Machinery("%d key exchanges were run (%s) but %d were logged" % (len(used), used, len(recs)))
         for rec, kx in zip(recs, used):
-            kex = kx
             if rec["meta"]["hash"] != KEX_HASH[kx]:
                 raise Machinery("exchange %d of the session negotiated %s but its kex engine reports hash %s"
                                 % (rec["kexno"], kx, rec["meta"]["hash"]))
             rec["meta"]["first_hash"] = KEX_HASH[used[0]]
-            rec["meta"]["kex"] = kex
+            rec["meta"]["kex"] = kx
             batch.append({k: rec[k] for k in ("kind", "acts", "need")})
             meta.append(rec)
-            c.case(key=("kex", cipher, mac, kex, rec["kexno"]))
+            c.case(key=("kex", cipher, mac, kx, rec["kexno"]))
+
+    # fixed stratum: every cipher (both AES-GCM ciphers included) through two key exchanges on the same pair of Transports,
+    # with a packet in each direction after every key switch - the keys IN USE are judged on those packets
+    fixed_macs = ["hmac-sha2-256", "hmac-sha2-512-etm@openssh.com", "hmac-sha1"]
+    for j, cipher in enumerate(T._cipher_info):
+        session(cipher, fixed_macs[j % 3], "curve25519-sha256@libssh.org" if "curve25519-sha256@libssh.org" in kexes else kexes[0], 1)
+        sessions += 1
+    for i, (cipher, mac) in enumerate(pairs):
+        if c.quick and i % 2 != c.seed % 2 and not cipher.startswith(("3des", "aes128-gcm")):
+            continue
+        kex = kexes[(i + c.seed) % len(kexes)]
+        if kex == "diffie-hellman-group16-sha512" and (c.quick or i % 24 != 6):     # slow: a few sessions only
+            kex = "ecdh-sha2-nistp521"
+        session(cipher, mac, kex, 0 if (c.quick and i % 3) else (1 if c.quick else 2))
         sessions += 1
 
     res, _ = c.trace("KeyDerivation_Trace", batch,
@@ -192,7 +229,7 @@ def run(c):
                     % (m["letter"], m["n"], m["hash"], m["kbits"], clause,
                        [[t["t"] + (t["v"] if t["t"] == "X" else str(t["i"]) if t["t"] == "D" else "") for t in call] for call in m["calls"]],
                        m["out_ok"], m["rfc_ok"]), {k: v for k, v in m.items() if k != "calls"})
-        acts = [{k: a[k] for k in ("role", "dir", "let", "size", "rfc_ok")} for a in m["acts"]]
+        acts = [{k: a[k] for k in ("role", "dir", "let", "size", "rfc_ok", "wire")} for a in m["acts"]]
         return ("%s:kex:%s" % (clause, "rekey" if m["kexno"] > 1 else "first"),
                 "key exchange %d of a %s session (%s, kex hash %s): clause %s fails; activations %s, needs %s"
                 % (m["kexno"], "+".join(m["meta"]["algos"]), m["meta"]["kex"], m["meta"]["hash"], clause, acts, m["need"]),
@@ -207,6 +244,12 @@ def run(c):
     if rekeys == 0 or other_hash == 0:
         raise Machinery("no re-key (to a kex method of another hash family) was exercised: %d / %d" % (rekeys, other_hash))
     c.extra["rekeys_to_another_hash"] = other_hash
+    wires = [a["wire"] for m in meta if m["kind"] == "kex" for a in m["acts"] if a["dir"] == "out"]
+    rekey_wires = [a["wire"] for m in meta if m["kind"] == "kex" and m["kexno"] > 1 for a in m["acts"] if a["dir"] == "out"]
+    if rekey_wires.count("ok") + rekey_wires.count("bad") < 2 * len(T._cipher_info):
+        raise Machinery("the first packet after a re-key was opened independently only %d times" % (len(rekey_wires) - rekey_wires.count("none")))
+    c.extra["first_packets_opened_independently"] = len(wires) - wires.count("none")
+    c.extra["of_them_after_a_rekey"] = len(rekey_wires) - rekey_wires.count("none")
     c.extra["compute_key_calls"] = n_compute
     c.extra["sessions"] = sessions
     c.extra["key_exchanges_logged"] = len(batch) - n_compute
